@@ -780,5 +780,7 @@ def run(chk):
 
     from verif import fallthrough
     fallthrough.run(chk, "C10", floor=13)
+    from verif import argorder
+    argorder.run(chk, "C10", floor=90)
 
     chk.assumptions += ["the positional seek arithmetic of ESmry::loadData / ExtESmry is not analysed (runtime quantities)"]
